@@ -56,6 +56,7 @@ type Engine struct {
 	Cfg         map[string]int
 	blockHooks  map[*ssa.BasicBlock]func(ex *Exec, fr *frame)
 	returnHooks map[*ssa.Function]func(ex *Exec, fr *frame)
+	NoSymIndexLoads bool // disable if-then-else loads through symbolic indexes (fork per index value instead)
 	Tactic      string // optional z3 tactic for check-sat-using (e.g. QF_BV pipelines)
 }
 
@@ -377,6 +378,9 @@ func (ex *Exec) global(g *ssa.Global) *value {
 	ex.ensureInit(g.Pkg)
 	if p, ok := ex.globals[g]; ok {
 		return p
+	}
+	if g.Pkg != nil && !ex.eng.initAllowed(g.Pkg) && !knownGlobals[g.String()] {
+		panic(pathEnd{kind: endUnsupported, msg: "global " + g.String() + " of a dependency package whose initialiser is not run"})
 	}
 	cell := new(value)
 	*cell = ex.initialGlobal(g)
